@@ -404,7 +404,15 @@ def run(fx, chk, tier):
     # ---------------- R-COUNT
     fcn = fx.impl_fn("Mp4Track", None, "sample_count")
     if chk.anchor("R-COUNT", "Mp4Track::sample_count", fcn):
-        body = body_of(fcn)
+        # the accumulation may live in a helper whose result sample_count returns unchanged
+        import c03 as _c03
+        cands = _c03.tail_delegates(fx, fcn)
+        fcn_acc = fcn
+        for f2 in cands:
+            if body_of(f2) is not None and body_of(f2).loops():
+                fcn_acc = f2
+                break
+        body = body_of(fcn_acc)
         adds = []
 
         def reads_run_count(op):
@@ -421,7 +429,7 @@ def run(fx, chk, tier):
         ok = len(adds) == 1 and bool(loops)
         if ok:
             import loops as LP
-            ls = LP.inventory(fx, fcn["id"])
+            ls = LP.inventory(fx, fcn_acc["id"])
             L = [l for l in ls if adds[0] in l.blocks][0]
             nb, nt = LP.driver_next_call(body, L, ls)
             ok = nt is not None and "TrafBox" in (nt["callee"].get("full") or "")
@@ -467,8 +475,22 @@ def run(fx, chk, tier):
     # ---------------- R-OWNFRAG: a lookup for sample k consults the fragment k lies in, and no other
     chk.rule("R-OWNFRAG", "bytes, size, timing and composition offset of a sample are computed from the track fragment the sample lies in: every element of self.trafs / self.moof_offsets a lookup touches is the one at the index find_traf_idx_and_sample_idx returned")
     nown = 0
-    for nm in ("sample_offset", "sample_size", "sample_time", "sample_rendering_offset"):
-        fn = fx.impl_fn("Mp4Track", None, nm)
+    NAMED = ("sample_offset", "sample_size", "sample_time", "sample_rendering_offset", "find_traf_idx_and_sample_idx", "sample_count", "read_sample", "is_sync_sample")
+
+    def with_helpers(fn0):
+        """the lookup and the private Mp4Track helpers it is split into (other named lookups are judged on their own)"""
+        out, todo = [], [fn0]
+        while todo:
+            f = todo.pop()
+            if f is None or f in out or body_of(f) is None:
+                continue
+            out.append(f)
+            for _b, t_ in body_of(f).calls():
+                g = fx.fns.get(callee_path(t_["callee"]) or "")
+                if g is not None and short((g.get("impl") or {}).get("self_ty", "")) == "Mp4Track" and g["name"] not in NAMED:
+                    todo.append(g)
+        return out
+    for nm, fn in [(nm, f2) for nm in ("sample_offset", "sample_size", "sample_time", "sample_rendering_offset") for f2 in with_helpers(fx.impl_fn("Mp4Track", None, nm))]:
         b = body_of(fn) if fn else None
         if b is None:
             continue
